@@ -455,7 +455,7 @@ func (ex *Exec) unop(fr *Frame, st *State, x *ssa.UnOp) Value {
 // loadedFacts: assumptions about a value read from the heap or a global (machine ranges, allocatedness).
 func (ex *Exec) loadedFacts(st *State, t Term) {
 	switch t.T.Underlying().(type) {
-	case *types.Pointer:
+	case *types.Pointer, *types.Map:
 		ex.refFact(st, t.S)
 		return
 	case *types.Interface:
